@@ -90,6 +90,8 @@ struct Dumper {
 
     std::vector<std::string> funcs, records, enums;
     std::set<const FunctionDecl *> doneF;
+    std::vector<const FunctionDecl *> pendingLambdas;
+    bool inLambdaQueue = false;
     std::set<const CXXRecordDecl *> doneR;
 
     // per function
@@ -608,6 +610,13 @@ struct Dumper {
         }
         if (auto *L = dyn_cast<LambdaExpr>(E)) {
             head(o, E, "lambda");
+            // the call operator is emitted as a function of its own (with CFG) after the enclosing function: "fd"
+            if (const CXXMethodDecl *CO = L->getCallOperator()) {
+                if (!CO->isDependentContext() && CO->doesThisDeclarationHaveABody()) {
+                    o << ",\"fd\":" << declOf(CO);
+                    pendingLambdas.push_back(CO);
+                }
+            }
             o << ",\"b\":";
             stmt(o, L->getBody());
             o << "}";
@@ -971,7 +980,7 @@ struct Dumper {
         return true;
     }
 
-    void function(const FunctionDecl *FD) {
+    void function(const FunctionDecl *FD, bool isLambda = false) {
         std::string file;
         if (!wanted(FD, file)) return;
         if (!doneF.insert(FD).second) return;
@@ -986,6 +995,7 @@ struct Dumper {
         o << "{\"id\":" << declOf(FD) << ",\"q\":\"" << jesc(qname(FD)) << "\",\"full\":\"" << jesc(fullname(FD)) << "\"";
         o << ",\"file\":" << fileOf(file) << ",\"line\":" << lineOf(FD->getLocation());
         if (FD->isDependentContext()) o << ",\"dep\":1";
+        if (isLambda) o << ",\"lambda\":1";
         // template pattern location (groups instantiations of one template)
         const FunctionDecl *Pat = FD->getTemplateInstantiationPattern();
         if (Pat) o << ",\"pat\":\"" << jesc(fileName(Pat->getLocation())) << ":" << lineOf(Pat->getLocation()) << "\"";
@@ -1103,6 +1113,16 @@ struct Dumper {
         }
         o << "}";
         funcs.push_back(o.str());
+        // lambdas met in this function: emit their call operators (the queue may grow while doing so)
+        if (!inLambdaQueue) {
+            inLambdaQueue = true;
+            while (!pendingLambdas.empty()) {
+                const FunctionDecl *LF = pendingLambdas.back();
+                pendingLambdas.pop_back();
+                function(LF, true);
+            }
+            inLambdaQueue = false;
+        }
     }
 
     void record(const CXXRecordDecl *RD) {
